@@ -314,3 +314,18 @@ for _pid in PLAN:
         for _t in PLAN[_pid][_tier]["tests"]:
             if _t["run"] in ("TestC07System", "TestC07Kill", "TestC11Cleaner", "TestC19"):
                 _t.setdefault("env", {})["VERIF_NOSHRINK"] = 1
+
+PLAN["C06"]["quick"]["tests"][0]["shards"] = 11
+PLAN["C06"]["quick"]["tests"].append({"run": "TestC06Volume", "shards": 4, "checks": 40, "timeout": 100})
+PLAN["C06"]["thorough"]["tests"][0]["shards"] = 10
+PLAN["C06"]["thorough"]["tests"].append({"run": "TestC06Volume", "shards": 4, "checks": 1500, "timeout": 840})
+PLAN["C06"]["rule"] += ("; TestC06Volume: stack programs (RF 1-3) with writes, volume snapshots, Controller.Revert to any snapshot still in the live chain (with per-replica failures of the revert request), "
+                        "delete requests, replica loss and rebuild: a revert is accepted only with an RW replica and no rebuilding one, afterwards the volume and every RW replica read back exactly the image "
+                        "the snapshot captured, the chain continues from that snapshot, replicas that failed the request are marked failed; the same step runs in the C03, C13 and C18 programs (status, checkpoint, bookkeeping)")
+
+PLAN["C13"]["quick"]["tests"][0]["shards"] = 12
+PLAN["C13"]["quick"]["tests"].append({"run": "TestC13Revert", "shards": 4, "checks": 40, "timeout": 130})
+PLAN["C13"]["thorough"]["tests"][0]["shards"] = 12
+PLAN["C13"]["thorough"]["tests"].append({"run": "TestC13Revert", "shards": 4, "checks": 1500, "timeout": 840})
+PLAN["C13"]["rule"] += ("; 'snaprace' steps: a snapshot request issued while a write stalled by one replica holds the controller lock and ends with that replica detached - accepted => the snapshot exists on all RF "
+                        "replicas, refused => on none; TestC13Revert: programs without racing writers but with Controller.Revert, rebuilds and departures - the checkpoint clauses hold across volume reverts")
